@@ -428,8 +428,11 @@ func canonEncoded(bs []byte, tl int) string {
 func goEnc(name string, r record) (line string, out []byte, after record, p codec) {
 	p = build(name, r)
 	var err error
-	o := Guard(func() { out, err = p.IEncode() })
+	// a deadline as well: an encoder asked to pad a slot to a width of gigabytes is not a result worth waiting for
+	o := GuardDeadline(encodeDeadline, func() { out, err = p.IEncode() })
 	switch {
+	case o.Hang:
+		return "hang", nil, nil, p
 	case o.Panic != "":
 		return "panic", nil, nil, p
 	case err != nil:
